@@ -14,10 +14,14 @@
    x.f += vs : t = x.f ; t = list.__iadd__(t, vs)  (builtin, in place,     builtin_iaug ; desc_set Live
                no _on_add) ; x.f = t
    x.s |= vs : the same through set.__ior__
-   append / extend / add / update(it1, it2, ...): _add_item per element       add_item, folds
+   append / add / update(it1, it2, ...): _add_item per element               add_item, folds
+   extend(items): for item in list(items): _add_item(item)                  copy FIRST (items may be the list itself
+                                                                           or a one-shot iterator), then fold add_item
    insert(i, v): _on_add(v) ; list.insert                                  record ; py_insert
    __setitem__(i, v): _on_add(v) FIRST ; list.__setitem__ (IndexError      record even when the index is bad
-               is raised after the relation was recorded) *)
+               is raised after the relation was recorded)
+   __setitem__(slice, v): v = list(v) FIRST (v may be a one-shot           materialise ; record ; py_setslice
+               iterator) ; _on_add(v) ; list.__setitem__ *)
 From Coq Require Import List Bool Arith ZArith Lia.
 From Krrood Require Import Onto.ContainerSpec.
 Import ListNotations.
@@ -37,6 +41,11 @@ Definition desc_set (k : kind) (v : value) (s : cst) : cst :=
 Definition builtin_iaug (k : kind) (vs : list elt) (s : cst) : cst :=
   {| items := match k with KList => items s ++ vs | KSet => set_union (items s) vs end; rec := rec s |}.
 
+(* an iterable handed to extend / slice assignment, and what list(...) makes of it at that moment *)
+Inductive iterable := OneShot (vs : list elt) | LiveIt.
+Definition materialise (it : iterable) (s : cst) : list elt :=
+  match it with OneShot vs => vs | LiveIt => items s end.
+
 Definition step (k : kind) (o : op) (s : cst) : cst * bool :=
   match k, o with
   | _, Assign vs => (desc_set k (Fresh vs) s, false)
@@ -50,8 +59,14 @@ Definition step (k : kind) (o : op) (s : cst) : cst * bool :=
       | Some l' => ({| items := l'; rec := rec s ++ [x] |}, false)
       | None => ({| items := items s; rec := rec s ++ [x] |}, true)
       end
-  | KList, SetSlice i j vs =>   (* _on_add(value) with the whole list: make_set(value) records each element; then list.__setitem__ *)
+  | KList, SetSlice i j vs =>   (* value = list(value); _on_add(value): make_set(value) records each element; list.__setitem__ *)
       ({| items := py_setslice i j vs (items s); rec := rec s ++ vs |}, false)
+  | KList, SetSliceIter i j vs =>
+      let values := materialise (OneShot vs) s in   (* list(value): the iterator is drained exactly once, here *)
+      ({| items := py_setslice i j values (items s); rec := rec s ++ values |}, false)
+  | KList, ExtendSelf =>
+      let values := materialise LiveIt s in         (* list(items) with items the live list: a snapshot *)
+      (fold_left (add_item KList) values s, false)
   | KSet, Add x => (add_item KSet s x, false)
   | KSet, Update vss => (fold_left (fun s vs => fold_left (add_item KSet) vs s) vss s, false)
   | _, _ => (s, false)
@@ -68,11 +83,10 @@ Fixpoint run (k : kind) (ops : list op) (s : cst) : list (list elt * bool) * cst
    copy / clear / re-add as any assignment *)
 Definition init (k : kind) (vs : list elt) : cst := desc_set k (Fresh vs) {| items := []; rec := [] |}.
 
-(* ---- two write paths OUTSIDE the proved fragment (known findings C16-d, C16-e) ----------------------------
+(* ---- the behaviour BEFORE commit 389dedc, kept for the regression lemmas of ContainerProofs.v ---------------
 
-   K_extend_self:  x.f.extend(x.f).  MonitoredList.extend is `for item in items: self._add_item(item)`; when items is the
-   list itself the iterator sees every element it appends, so position i always exists: the loop never ends
-   (plain Python: l.extend(l) doubles l). *)
+   old extend:  `for item in items: self._add_item(item)`; with items the list itself the iterator sees every element it
+   appends, so position i always exists and the loop never ends. *)
 Fixpoint extend_live (fuel : nat) (i : nat) (s : cst) : option cst :=
   match fuel with
   | O => None
@@ -82,6 +96,11 @@ Fixpoint extend_live (fuel : nat) (i : nat) (s : cst) : option cst :=
            end
   end.
 
+(* old slice assignment of a generator: _on_add(value) -> make_set(value) drained the iterator, list.__setitem__ got nothing *)
+Definition setslice_gen_old (i j : Z) (vs : list elt) (s : cst) : cst :=
+  {| items := py_setslice i j [] (items s); rec := rec s ++ vs |}.
+
+(* ---- a write path OUTSIDE the proved fragment (known finding C16-d) ------------------------------------------ *)
 (* K_ctor_alias:  q = C(f = p.f).  q's attribute is not monitored yet, so __set__ calls _ensure_monitored_type(value), which
    returns the value itself when it already is a monitored container: p and q now hold ONE container.  It is cleared and
    re-filled with owner q; afterwards whoever reads the field last is the owner that records. *)
@@ -89,18 +108,8 @@ Record cst2 := { shared : list elt; recp : list elt; recq : list elt }.
 Definition ctor_alias (s : cst) : cst2 := {| shared := items s; recp := rec s; recq := items s |}.
 Definition append_q (x : elt) (t : cst2) : cst2 := {| shared := shared t ++ [x]; recp := recp t; recq := recq t ++ [x] |}.
 
-(* K_slice_generator:  x.f[i:j] = (a generator).  __setitem__ calls _on_add(value) first; recording goes through
-   make_set(value), which consumes the one-shot iterator, so list.__setitem__ receives an exhausted one: the slice is
-   replaced by nothing although every element was recorded. *)
-Definition setslice_gen (i j : Z) (vs : list elt) (s : cst) : cst :=
-  {| items := py_setslice i j [] (items s); rec := rec s ++ vs |}.
-
 From Krrood Require Import Base.Sx.
 Definition model_out (k : kind) (ops : list op) (vs0 : list elt) : sx :=
   let '(tr, fin) := run k ops (init k vs0) in SL [trace_sx tr; elts_sx (rec fin)].
-Definition extend_self_out (fuel : nat) (vs0 : list elt) : sx :=
-  match extend_live fuel 0 (init KList vs0) with None => SZ (-1) | Some s => elts_sx (items s) end.
 Definition ctor_alias_out (vs0 : list elt) (x : elt) : sx :=
   let t := append_q x (ctor_alias (init KList vs0)) in SL [elts_sx (shared t); elts_sx (recp t); elts_sx (recq t)].
-Definition slice_gen_out (i j : Z) (vs vs0 : list elt) : sx :=
-  let s := setslice_gen i j vs (init KList vs0) in SL [elts_sx (items s); elts_sx (rec s)].
